@@ -86,6 +86,19 @@ theorem c16_no_failure_partial (chain : List Block) (h : Valid.validChain chain 
   have w := run_U cfg chain h
   ⟨fun _ => w.not_err, fun _ hs => w.panic_mem hs⟩
 
+/-- **What is left of C16, as one named hypothesis**: the full statement for a configuration follows
+from `UtxoPassOk cfg chain` — the sat / address / inscription pass does not panic on the next block
+from the state reached by indexing the blocks before it.  (Everything else — the rune pass of every
+block, and the absence of errors — is proved from `validChain`.) -/
+theorem c16_no_failure_of_utxo_pass (chain : List Block) (h : Valid.validChain chain = true) (cfg : Cfg)
+    (hu : UtxoPassOk cfg chain) :
+    (∀ s, run cfg chain ≠ .panic s) ∧ (∀ e, run cfg chain ≠ .err e) :=
+  run_no_failure_of_utxoPassOk cfg chain h hu
+
+/-- the hypothesis is satisfiable: on the example chain with every index on -/
+example : (run ⟨true, true, true, true, true, 0, 0, 0⟩ [⟨0, 0, 11, 0,
+    [⟨1, [⟨OutPoint.null, false, none, []⟩], [⟨5000000000, false, []⟩], [], none, 100⟩]⟩]).isOk = true := by decide
+
 /-- Clause (b), all inputs: `index_transaction_sats` never hits `expect("insufficient inputs for
 transaction outputs")` when the outputs claim at most the value of the input ranges. -/
 theorem c16_sats_sufficient (values : List Nat) (ranges : List (Nat × Nat))
